@@ -261,6 +261,9 @@ def c04_runtime(ctx, shape, method, l1, mob, form, ls, aa, weight, masses, num_i
     scale = max(1.0, float(np.linalg.norm(mass_rhs(w, m1, m2))))
     # recorded known finding: the first Anderson mixing of the Bregman iteration can blow up the right-hand side (ill-conditioned least squares)
     ctx.witness("bregman_anderson_first_mixing_blowup", method == "bregman" and aa > 0 and peak["rhs"] > 1e8 * scale)
+    # recorded known finding (see C08): flux_reduced + amg / cg does not converge above 100 unknowns; only the balance clause is affected
+    ctx.witness("flux_reduced_iterative_above_100_unknowns", form == "flux_reduced" and ls in ("amg", "cg") and grid.num_cells + 1 > 100
+                and abs(dist - w.l1_dissipation(flat)) <= 1e-9 * max(1.0, abs(dist)))
     ctx.ensure("mass balance: div(flux) == M (m2 - m1) to solver precision", balance_residual(w, flat, m1, m2) <= 1e-7 * scale)
     ctx.ensure("reported distance == l1_dissipation(returned flux)", abs(dist - w.l1_dissipation(flat)) <= 1e-9 * max(1.0, abs(dist)))
     ctx.ensure("cell fluxes == face_to_cell(returned flux)", bool(np.allclose(info["flux"], darsia.face_to_cell(grid, flat), atol=1e-12)))
@@ -311,3 +314,16 @@ def c04_outputs(ctx, shape, weighted):
         n2 = sum(wf[v + (k,)] * wf[v + (k,)] for k in range(dim))
         ok.append(and_(td[v] >= 0, eq(td[v] * td[v], n2)))
     ctx.ensure("transport density == Euclidean norm of the (weighted) cell flux at the cell centre (cell projection mode)", and_(*ok))
+
+
+@ob("C04.lemmas", kind="L", cases=[{}], samples=(0, 0), funcs=[],
+    cite="the returned flux satisfies the discrete mass balance ... (every iterate, with or without Anderson mixing; the multiplier vanishes)",
+    note="Lean 4 + Mathlib lemmas over the contracts (lemmas/DarsiaLemmas.lean): mass_step, mass_solve, affine_mix, total_divergence_zero, "
+         "multiplier_zero, quadrature_lower_bound, schur_full_system; their hypotheses are the clauses of C04.rows / C06.div / C08 checked on the real code")
+def c04_lemmas(ctx):
+    from vf.lean import check
+    res = check()
+    ctx.note(f"lean lemmas hash {res['hash']} cached={res['cached']}")
+    ctx.ensure("lemma file compiles with Lean 4 + Mathlib without errors, sorry, axioms or admits: " + res["output"][:300], res["ok"])
+    want = {"mass_step", "mass_solve", "affine_mix", "total_divergence_zero", "multiplier_zero", "quadrature_lower_bound", "schur_full_system"}
+    ctx.ensure("all lemmas the claims refer to are present", want <= set(res["theorems"]))
